@@ -232,10 +232,16 @@ def run(ctx):
         if rng.random() < 0.3:
             alien = next(l for l in (9, 10, 11, 7, 8, 250, 251) if all(l not in ls_ for _, ls_ in spec.values()))
             bad_p = pred.copy()
+            if cfg.get("input") == "semantic" and rng.random() < 0.6:
+                # a NEGATIVE label in a signed map (an "ignore" label such as -1): it belongs to no group either
+                top = max([l for _, ls_ in spec.values() for l in ls_] + [1])
+                alien = rng.choice([-1, -1, -2, -top, -(top + 1), -rng.randint(1, top + 1)])
+                bad_p = bad_p.astype(rng.choice(["int8", "int16", "int32", "int64"]))
             bad_p.reshape(-1)[rng.randrange(bad_p.size)] = alien
             which = rng.choice(["pred", "ref"])
-            o_bad = impl.evaluate(impl.make_evaluator(cfg), bad_p if which == "pred" else pred.copy(), ref.copy() if which == "pred" else bad_p.astype(ref.dtype))
-            ctx.bump("malformed")
+            o_bad = impl.evaluate(impl.make_evaluator(cfg), bad_p if which == "pred" else pred.copy(),
+                                  ref.copy() if which == "pred" else (bad_p if alien < 0 else bad_p.astype(ref.dtype)))
+            ctx.bump("malformed" + ("-negative" if alien < 0 else ""))
             if not isinstance(o_bad, tuple):
                 ctx.violation(f"input with a label ({alien}) that belongs to no group was evaluated instead of rejected", {**case, "bad_array": which, "bad": bad_p})
 
